@@ -37,15 +37,22 @@ if instr:
 print(json.dumps({'Replace':m},indent=1))
 PY
 }
+# a tree other than /repo (seeded/try.sh with SEED_COPY=1): same harness module, replace directive redirected
+MODFILE=""
+if [ "$REPO" != "/repo" ]; then
+  sed "s#=> /repo#=> $REPO#" harness/go.mod > .work/alt.mod
+  cp harness/go.sum .work/alt.sum 2>/dev/null || true
+  MODFILE="-modfile=$VERIF_ROOT/.work/alt.mod"
+fi
 case "$WHAT" in C07|C11|C12|C13|C17) need_hs=1; need_h=0;; all) need_hs=1; need_h=1;; *) need_hs=0; need_h=1;; esac
 if [ "$need_h" = 1 ]; then
   hooks_overlay "" > .work/overlay.json
-  (cd harness && go build -tags verif -overlay ../.work/overlay.json -o ../.work/bin/h ./cmd/h)
+  (cd harness && go build $MODFILE -tags verif -overlay ../.work/overlay.json -o ../.work/bin/h ./cmd/h)
 fi
 if [ "$need_hs" = 1 ]; then
   FILES=engine/logic/jump.go,engine/queue/queue.go,engine/pipeline/pipes.go,engine/core/processors.go,jobstorage/serializer.go,gripper/channel_mux.go,gdbi/processor.go,kvgraph/graph.go,kvgraph/index.go,kvindex/kvindex.go,server/api.go,kvgraph/new.go,kvgraph/graphdb.go,jobstorage/storage.go
   .work/bin/instr -repo "$REPO" -out "$VERIF_ROOT/.work/instr" -files "$FILES" \
      -mute engine/logic/jump.go,engine/queue/queue.go -clock gdbi/processor.go -io jobstorage/storage.go > .work/instr/out.json
   hooks_overlay .work/instr/out.json > .work/overlay_sched.json
-  (cd harness && go build -tags "verif vsched" -overlay ../.work/overlay_sched.json -o ../.work/bin/hs ./cmd/h)
+  (cd harness && go build $MODFILE -tags "verif vsched" -overlay ../.work/overlay_sched.json -o ../.work/bin/hs ./cmd/h)
 fi
